@@ -289,6 +289,7 @@ func (g *gen) leaderEntry(t, off int64) (ent, bool) {
 		ti = &termInfo{envOK: false}
 		g.h.terms[t] = ti
 	}
+	ti.stale = false // (a leader of the term is active in this incarnation: monitor off, no second leader for the term)
 	for int64(len(ti.log)) <= off && off-int64(len(ti.log)) < 4 {
 		ti.log = append(ti.log, ent{t, int64(len(ti.log)), g.fresh()})
 	}
@@ -300,10 +301,11 @@ func (g *gen) leaderEntry(t, off int64) (ent, bool) {
 
 // openStream: a leader that attaches before the follower's log was brought in line does not meet its obligations
 func (g *gen) openStream(t int64) {
-	if !g.done[t] {
-		if ti := g.h.terms[t]; ti != nil {
+	if ti := g.h.terms[t]; ti != nil {
+		if !g.done[t] {
 			ti.envOK = false
 		}
+		ti.stale = false
 	}
 	g.nextSid++
 	g.h.doReplicateOpen(g.nextSid, t)
@@ -585,6 +587,7 @@ func (g *gen) step() {
 					ti = &termInfo{envOK: true}
 					h.terms[t] = ti
 				}
+				ti.stale = false
 				for int64(len(ti.log)) <= c {
 					ft := int64(0) // filler entries keep the leader log term-sorted
 					if n := len(ti.log); n > 0 {
@@ -962,6 +965,13 @@ func main() {
 	o := hx.NewOut(f.OutDir)
 	defer o.Close()
 	r := hx.NewRng(f.Seed)
+	t0 := time.Now()
+	lap := func(what string) { // VERIF_NODE_TIMING=1: where the time goes
+		if os.Getenv("VERIF_NODE_TIMING") != "" {
+			fmt.Fprintf(os.Stderr, "%-28s %6.2fs\n", what, time.Since(t0).Seconds())
+		}
+		t0 = time.Now()
+	}
 
 	lines := hx.CorpusLines(f.Corpus)
 	if f.Replay != "" {
@@ -991,13 +1001,16 @@ func main() {
 	if f.Replay != "" {
 		return
 	}
+	lap("corpus")
 	for _, b := range builtin {
 		runScript(o, b[0], b[1], "schedules:builtin")
 	}
+	lap("builtin")
 	for i := 0; i < f.N; i++ {
 		steps := 25 + r.Intn(30)
 		runGenerated(o, r.Fork(), steps)
 	}
+	lap("generated")
 	// decisions at the boundary of the two "no truncation needed" tests
 	runTrunc(o, []int64{1, 1, 3, 3}, 3, 3, 2, 1)
 	runTrunc(o, []int64{1, 1, 3, 3}, 3, 3, 1, 1)
@@ -1007,19 +1020,23 @@ func main() {
 	for i := 0; i < f.N/2+10; i++ {
 		genTrunc(o, r)
 	}
+	lap("trunc")
 	// snapshot install as a multi-step operation with faults and concurrent requests (spec verdicts only)
 	runSnapFailThenNewTerm(o, 2)
 	runSnapFailThenNewTerm(o, 3)
 	runSnapshotVsBusyApply(o)
+	lap("snapshot scenarios")
 	// kill -9 at the moment of an answer: the node goes on from an image of its directories
 	for _, kind := range []int{0, 1} {
 		runKillAfterNewTerm(o, false, kind)
 		runKillAfterNewTerm(o, true, kind)
 	}
 	runAppendDuringFlush(o)
+	lap("kill scenarios")
 	for i := 0; i < f.N/5+2; i++ {
 		runGeneratedKills(o, r.Fork(), 25+r.Intn(25))
 	}
+	lap("generated with kills")
 	// leader attaches a real follower: decision + replication end to end
 	if *focus == "c03" {
 		runAttach(o, mkLog(1, 2), mkLog(1, 1, 3, 3), 4)
@@ -1027,5 +1044,22 @@ func main() {
 		runAttach(o, mkLog(1, 1, 1), mkLog(1, 1, 3), 4)
 		runAttach(o, nil, mkLog(1, 2), 4)
 		runAttach(o, mkLog(1, 1, 2, 2), mkLog(1, 1, 2, 2, 2, 5), 6)
+		lap("attach")
+		// leader with followers held by the harness, client contexts cancelled at every stage: the leader's applied state
+		for _, sc := range [][2]string{
+			{"2", "W:0;A:0;W:2;A:0;W:0;A:0;W:0;A:0"},
+			{"2", "W:1;A:0;W:0;A:0;W:3;A:0;W:0;A:0"},
+			{"2", "W:0;W:2;W:1;W:0;A:0;A:0;A:0;A:0;W:0;A:0;RL"},
+			{"2", "W:0;A:0;W:2;A:0;RL;W:0"},
+			{"3", "W:0;A:1;A:0;W:2;A:0;W:0;A:1;A:1;A:0;W:0;A:1;A:0"},
+			{"3", "W:2;W:2;A:1;A:1;W:0;A:0;A:0;A:0;A:1;RL"},
+		} {
+			runLeaderWithFollowers(o, int(atoi(sc[0])), sc[1])
+		}
+		for i := 0; i < f.N/10+4; i++ {
+			rf := 2 + r.Intn(2)
+			runLeaderWithFollowers(o, rf, genLeaderScript(r.Fork(), rf))
+		}
+		lap("leader with held followers")
 	}
 }
